@@ -3,6 +3,7 @@ from __future__ import annotations
 
 import enc
 import gen
+import hkspy
 from props.common import load_def, mk_nfa, outcome
 from automata.fa.dfa import DFA
 from automata.fa.nfa import NFA
@@ -10,7 +11,7 @@ from automata.fa.nfa import NFA
 RULE = ("random pairs of valid NFAs over a common alphabet (1-5 states, epsilon edges/cycles, nondeterminism) plus pairs "
         "built to be equivalent (an NFA vs its epsilon-eliminated form, vs the NFA view of its determinisation, vs its "
         "double reversal) and near-equivalent (one final flag flipped), and ultimately periodic 'lasso' pairs (periods 2 vs 3, a cycle vs its unrolling, one flag changed); ==, != in both argument orders compared with "
-        "the proved comparator; additionally == is compared with DFA equality of the determinisations. distinct = "
+        "the proved comparator and, for ==, with the mirror model of the code's Hopcroft-Karp/union-find loop over subset states (two symbol orders and tie-breaks, both argument orders), and the sequence of union calls observed by a spy on networkx's UnionFind is compared with the mirror model run under the observed schedule; additionally == is compared with DFA equality of the determinisations. distinct = "
         "canonical pair; non-trivial = both languages non-empty and the operands are not literally identical")
 
 
@@ -20,11 +21,46 @@ def variants(rng, n):
     yield "reversed_twice", n.reverse().reverse()
 
 
+def hk_trace_prepare(a, b, ta, tb, sy, label):
+    """Run a == b under the spy; return (wire item for the mirror model under the observed schedule, judge)."""
+    if a.input_symbols != b.input_symbols:
+        return None, None
+    sta, stb = enc.Renum(enc.nfa_names(a)), enc.Renum(enc.nfa_names(b))
+
+    def el(e):
+        qs, idx = e
+        st = (sta, stb)[idx]
+        return [idx, sorted(st(q) for q in qs)]
+
+    got, rec = hkspy.observe_eq(a, b)
+    order = [sy(c) for c in a.input_symbols]
+    ties = [[el(x), el(y)] for x, y in rec.first_wins]
+    calls = [[el(x), el(y)] for x, y in rec.calls]
+
+    def judge(ctx, answer, eq_outcome):
+        m_res, m_log = answer
+        m_res = enc.dec_res(m_res)
+        want = ("ok", m_res[1] == 1) if m_res[0] == "ok" else ("err", m_res[1])
+        out = []
+        if got[:2] != want or got[:2] != eq_outcome[:2]:
+            out.append(f"{label} under the observed schedule: impl {got} (unobserved run {eq_outcome}) mirror model {want}")
+        if calls != m_log:
+            out.append(f"{label}: union-find calls differ from the mirror model's: impl {calls} model {m_log}")
+        ctx.tally("hk_trace_compared")
+        ctx.tally(f"hk_unions_{min(len(calls), 6)}{'+' if len(calls) >= 6 else ''}")
+        return out
+
+    return (7, 7, enc.tree([ta, tb, order, ties])), judge
+
+
 def check_pair(ctx, a, b, tag, defs=None):
     sy = enc.SymMap(a.input_symbols | b.input_symbols)
     ta, tb = enc.enc_nfa(a, None, sy), enc.enc_nfa(b, None, sy)
-    ans = ctx.driver.batch([(7, 5, enc.tree([ta, tb]))])[0]
+    traces = [hk_trace_prepare(a, b, ta, tb, sy, "eq"), hk_trace_prepare(b, a, tb, ta, sy, "eq_rev")]
+    ans, hk, *trace_ans = ctx.driver.batch([(7, 5, enc.tree([ta, tb])), (7, 6, enc.tree([ta, tb]))]
+                                           + [item for item, _ in traces if item])
     m_eq, m_ne, m_eq_rev, diff = (enc.dec_res(x) for x in ans)
+    hk_eq, hk_eq_alt, hk_eq_rev = (enc.dec_res(x) for x in hk)
     got = {"eq": outcome(lambda: a == b), "ne": outcome(lambda: a != b),
            "eq_rev": outcome(lambda: b == a), "ne_rev": outcome(lambda: b != a)}
     problems = []
@@ -35,6 +71,20 @@ def check_pair(ctx, a, b, tag, defs=None):
     for k, exp in (("eq", want), ("ne", not want), ("eq_rev", want), ("ne_rev", not want)):
         if got[k][:2] != ("ok", exp):
             problems.append(f"{k}: impl {got[k]} expected {exp}")
+    # == against the mirror model of NFA.__eq__ (Hopcroft-Karp as coded)
+    for k, sched, m in (("eq", "record order, first root wins ties", hk_eq),
+                        ("eq", "reversed order, second root wins ties", hk_eq_alt),
+                        ("eq_rev", "operands swapped", hk_eq_rev)):
+        mw = ("ok", m[1] == 1) if m[0] == "ok" else ("err", m[1])
+        if got[k][:2] != mw:
+            problems.append(f"{k}: impl {got[k]} Hopcroft-Karp mirror model ({sched}) {mw}")
+    ctx.tally("hk_mirror_compared")
+    # the run of the loop itself: union calls seen by a spy on networkx's UnionFind against the mirror model driven
+    # by the schedule the implementation actually used (symbol iteration order, tie-breaks); both argument orders
+    trace_problems = []
+    if traces[0][0]:
+        trace_problems += traces[0][1](ctx, trace_ans[0], got["eq"])
+        trace_problems += traces[1][1](ctx, trace_ans[1], got["eq_rev"])
     da, db = DFA.from_nfa(a), DFA.from_nfa(b)
     if got["eq"][0] == "ok" and (da == db) != got["eq"][1]:
         problems.append(f"== on the NFAs is {got['eq'][1]} but == on their determinisations is {da == db}")
@@ -43,6 +93,13 @@ def check_pair(ctx, a, b, tag, defs=None):
     ctx.tally("pair_" + tag)
     ctx.case((enc.tree(ta), enc.tree(tb)), enc.tree(ta) != enc.tree(tb) and not da.isempty() and not db.isempty(),
              sample={"A": repr(a), "B": repr(b), "eq": got["eq"][1]})
+    if trace_problems and not problems:
+        # same answers, different run: the mirror model no longer describes the code's loop (C09/hk_trace)
+        ctx.violation("C09/hk_trace: the union-find run of NFA.__eq__ differs from the mirror model: " + "; ".join(trace_problems),
+                      {"kind": "pair", "A": repr(a.input_parameters), "B": repr(b.input_parameters),
+                       "problems": trace_problems, "tag": tag}, confirmed=False)
+        return
+    problems += trace_problems
     if problems:
         conf = None
         if word is not None:
